@@ -127,8 +127,9 @@ theorem foldl_keeps (all : Nat → List String) (parent : Nat → Option Nat) (f
 
 /-! ### container type of sequence fields
 
-  `type_map` sends `list[T]`, `tuple[T]` and `set[T]` to the same array / payload-list format; the packers decode a Python
-  `list` and nothing converts it back to the annotated container. -/
+  `type_map` sends `list[T]`, `tuple[T]` and `set[T]` to the same array / payload-list format and the packers decode a
+  Python `list`; since a531c88 `convert_to_payload` installs `fix_unpack_<field> = tuple | set` for fields annotated
+  `tuple[...]` / `set[...]`, so the compiled `from_unpack_list` restores the annotated container. -/
 
 inductive Container where
   | list | tuple | set
@@ -140,6 +141,9 @@ def Container.toString : Container → String
   | .list => "list" | .tuple => "tuple" | .set => "set"
 
 /-- container type of the decoded field for a field annotated with the given container -/
-def decodedContainer : Container → Container := fun _ => .list
+def decodedContainer : Container → Container
+  | .list => .list      -- the packer's list as it is
+  | .tuple => .tuple    -- fix_unpack_<field> = tuple
+  | .set => .set        -- fix_unpack_<field> = set
 
 end Ipv8.C02.Dc
